@@ -154,6 +154,19 @@ def run_python(seed, per_class):
             else:
                 exp = "(BIn (T %s))" % _codes(r[1])
             cases.append(("B", (std + ":" + name, br, has, req), s, exp, None))
+    ParserFactory().create(std="f2003")
+    names = NAMES + ["abc", " abc ", "a1_$", "$a", "_a", "A", "a b", "a.b", "1", "x" * 70, "\tq\t"]
+    labels = ["1", "12345", "123456", "", "0", "00010", "1a", " 10", "10 ", "+1", "99999"]
+    for s in names + [_mut(rng, rng.choice(names)) for _ in range(per_class)]:
+        if not all(32 <= ord(c) < 127 or c == "\t" for c in s):
+            continue
+        r = F3.Name.match(s)
+        cases.append(("N", ("f2003:Name",), s, "None" if r is None else "(Some (T %s))" % _codes(r[0]), None))
+    for s in labels + [_mut(rng, rng.choice(labels)) for _ in range(per_class)]:
+        if not all(32 <= ord(c) < 127 for c in s):
+            continue
+        r = F3.Label.match(s)
+        cases.append(("L", ("f2003:Label",), s, "None" if r is None else "(Some (T %s))" % _codes(r[0]), None))
     return cases, len(ends), len(words), skipped, len(T.STRINGS), len(T.BRACKETS)
 
 
@@ -174,6 +187,9 @@ def corr(seed, per_class):
              "Definition bres_eqb (a b : bres) : bool := match a, b with BNo, BNo | BEmpty, BEmpty => true "
              "| BIn x, BIn y => text_eqb x y | _, _ => false end.",
              "Definition B br h rq s ex : bool := bres_eqb (bracket_match (T br) h rq (T s)) ex.",
+             "Definition oeq (a b : option text) : bool := match a, b with Some x, Some y => text_eqb x y | None, None => true | _, _ => false end.",
+             "Definition NM s ex : bool := oeq (name_match (T s)) ex.",
+             "Definition LB s ex : bool := oeq (label_match (T s)) ex.",
              "Fixpoint bad (l : list bool) (i : nat) : list nat := match l with [] => [] | x :: r => "
              "if x then bad r (S i) else i :: bad r (S i) end.", "Definition cases : list bool := ["]
     rows = []
@@ -185,6 +201,10 @@ def corr(seed, per_class):
                                                   "(Some (T %s))" % _codes(printed) if printed is not None else "None"))
         elif kind == "W":
             rows.append("W %s %s %s %s %s %s" % (_codes(par[1]), b(par[2]), b(par[3]), b(par[4]), _codes(s), exp))
+        elif kind == "N":
+            rows.append("NM %s %s" % (_codes(s), exp))
+        elif kind == "L":
+            rows.append("LB %s %s" % (_codes(s), exp))
         elif kind == "S":
             rows.append("SM [%s] %s %s %s" % (";".join(_codes(x) for x in par[1]), b(par[2]), _codes(s), exp))
         else:
